@@ -341,7 +341,7 @@ def main(argv=None):
         idx = [i for i in idx if a.only in json.dumps(scen[i])]
     if a.limit:
         idx = idx[: a.limit]
-    total_budget = getattr(h, "BUDGET", {"quick": 170, "thorough": 1500})[a.tier]
+    total_budget = getattr(h, "BUDGET", {"quick": 170, "thorough": 900})[a.tier]
     ctx = mp.get_context("spawn")
     outq = ctx.Queue()
     byseed = {}
